@@ -81,6 +81,10 @@ func (comp *Compiler) Compile(stmts []*gripql.GraphStatement, opts *gdbi.Compile
 		return cmpl.Compile(stmts, opts)
 	}
 
+	if err := core.Validate(stmts, opts); err != nil {
+		return &Pipeline{}, fmt.Errorf("invalid statments: %s", err)
+	}
+
 	procs := []gdbi.Processor{}
 	query := mongo.Pipeline{}
 	startCollection := ""
